@@ -224,11 +224,19 @@ def main(argv=None):
     }
     if bounded:
         evidence['coverage']['bounded_note'] = 'bounded stand-ins are NOT included in obligations/discharged'
+    if bounded_obs:
+        evidence['coverage']['bounded_checks'] = len(bounded_obs)
+        evidence['coverage']['bounded_checks_passed'] = len([o for o in bounded_obs if o['status'] == 'discharged'])
+    if evidence['level'] != 'proof':
+        # generic keys for non-proof levels: every bounded check is one evaluated case
+        evidence['coverage']['evaluations'] = len(all_obs)
+        evidence['coverage']['distinct_nontrivial'] = len({o['name'] for o in all_obs})
+        evidence['coverage']['rule'] = 'one case per named obligation of a bounded symbolic instance (generic in all symbolic inputs); distinct = distinct obligation names'
     os.makedirs(os.path.join(ROOT, 'evidence'), exist_ok=True)
     with open(os.path.join(ROOT, 'evidence', f'{pid}.json'), 'w') as fh:
         json.dump(evidence, fh, indent=1, default=str)
 
-    print(f'{pid} [{tier}]: {len(obligations)} obligations, {len(discharged)} discharged, '
+    print(f'{pid} [{tier}]: {len(obligations)} obligations, {len(discharged)} discharged, ' + (f'{len(bounded_obs)} bounded checks, ' if bounded_obs else '') +
           f'{len(known_hits)} known findings, {len(violations)} violations, {len(unknown)} undecided, '
           f'{len(errors)} job errors; canaries {len(canaries) - len(canary_fail)}/{len(canaries)}; '
           f'{evidence["wall_s"]}s')
@@ -242,7 +250,7 @@ def main(argv=None):
             if os.environ.get('PYVC_DEBUG'):
                 print(r['traceback'])
         return 3
-    if len(obligations) == 0:
+    if len(obligations) == 0 and not (getattr(mod, 'LEVEL', 'proof') != 'proof' and bounded_obs):
         print(f'CHECKER-ERROR property={pid}: zero obligations generated')
         return 3
     if canary_fail:
